@@ -60,8 +60,8 @@ def emit_sample(R, form, contract=None, loop_contracts=None, abstract_fp=False):
         # (memoising, deterministic) functions; comparisons stay real.  Sound for every
         # interpretation of the operations, IEEE-754 included.
         b = R.sub("R13-fp-mul", r'\(cb_get_random01\(\) \* unitlength\)', '(tsg_fmul(cb_get_random01(), unitlength))', b)
-        b = R.sub("R13-fp-div", r'\(values\[ival\] / TasmanianDREAM_getPDFvalue\(state, i\) >=', '(tsg_fdiv(values[ival], TasmanianDREAM_getPDFvalue(state, i)) >=', b)
-        b = R.sub("R13-fp-sub", r'\(values\[ival\] - TasmanianDREAM_getPDFvalue\(state, i\) >=', '(tsg_fsub(values[ival], TasmanianDREAM_getPDFvalue(state, i)) >=', b)
+        b = R.sub("R13-fp-div", r'\(values\[ival\] / TasmanianDREAM_getPDFvalue\(state, i\)\s*(>=?|<=?|==)', r'(tsg_fdiv(values[ival], TasmanianDREAM_getPDFvalue(state, i)) \1', b)
+        b = R.sub("R13-fp-sub", r'\(values\[ival\] - TasmanianDREAM_getPDFvalue\(state, i\)\s*(>=?|<=?|==)', r'(tsg_fsub(values[ival], TasmanianDREAM_getPDFvalue(state, i)) \1', b)
         R.require({"R13-fp-mul": 2, "R13-fp-div": 1, "R13-fp-sub": 1})
     # after a throwing callee the C text returns as the exception would propagate
     b = R.sub("R9-propagate", r'(TasmanianDREAM_setPDFvalues_fn\(state\);)', r'\1 if (tsg_exc) return;', b)
